@@ -1,4 +1,5 @@
 from .token import Token
+from ...errors import ExpectedTokenError
 
 
 class Boolean(Token):
@@ -15,6 +16,4 @@ class Boolean(Token):
         elif value == "FALSE":
             self.value = False
         else:
-            raise TypeError(
-                f"Inputted type for type boolean was incorrect (is: {value})"
-            )
+            raise ExpectedTokenError(self.stack, "A valid value was expected")
